@@ -19,7 +19,7 @@ RULE = ("(a) every fault site (C12 matrix + list/tuple/number given to String an
         "lists nested to 6; (c) CSV faults: empty file, header only, ragged rows, non-numeric cells, missing column, duplicate "
         "headers, quoted newlines, NUL bytes, non-UTF-8 bytes, 1 MB field, nan/inf/1e400 cells; (d) open() raising at the n-th call; "
         "(e) mismatched shapes / weights / empty lists; distinct by (class, fault/edit kind, command, outcome class)")
-REQUIRED_COUNTERS = ["boundary_outcomes_recorded", "mpilot_errors_seen", "cli_runs_checked", "error_messages_rendered", "io_faults_injected", "csv_faults_run", "text_corruptions_run"]
+REQUIRED_COUNTERS = ["boundary_outcomes_recorded", "mpilot_errors_seen", "cli_runs_checked", "error_messages_rendered", "io_faults_injected", "csv_faults_run", "text_corruptions_run", "cli_subprocess_runs"]
 ASSUMPTIONS = ["SyntaxError vs MPilotError for malformed text: either is allowed", "command files that are not valid UTF-8, KeyboardInterrupt and MemoryError are out of scope",
                "the CLI's behaviour for SyntaxError is not specified by the property and not judged"]
 
@@ -171,12 +171,37 @@ def _classify(ctx, b, tag, detail):
     return False
 
 
+_sub = {"n": 0}
+
+
+def _cli_subprocess(ctx, path, tag, detail):
+    """The real console entry point in its own process (a sample: ~0.4 s each)."""
+    import subprocess
+    import sys
+    try:
+        r = subprocess.run([sys.executable, "-c", "import sys; from mpilot.cli.mpilot import main; sys.argv = ['mpilot'] + sys.argv[1:]; main()", "eems-csv", path],
+                           capture_output=True, text=True, timeout=120)
+    except subprocess.TimeoutExpired:
+        ctx.note_inconclusive("CLI subprocess timed out")
+        return
+    ctx.count("cli_subprocess_runs")
+    if r.returncode == 0:
+        ctx.fail("%s:cli-process-exit-0" % tag, dict(detail, stderr=r.stderr[-300:]))
+    elif "Traceback (most recent call last)" in r.stderr and "Problem: An unexpected error occurred" not in r.stderr:
+        ctx.fail("%s:cli-process-traceback" % tag, dict(detail, stderr=r.stderr[-500:]))
+    elif "Problem" not in r.stderr or "Solution" not in r.stderr:
+        ctx.fail("%s:cli-process-no-problem-solution-text" % tag, dict(detail, stderr=r.stderr[-400:], exit=r.returncode))
+
+
 def _cli(ctx, text, d, tag, detail, expect_error=True, api_exc=None, api_dir=None):
     from click.testing import CliRunner
     from mpilot.cli.mpilot import main
     path = os.path.join(d, "model.mpt")
     with open(path, "w", encoding="utf-8") as f:
         f.write(text)
+    _sub["n"] += 1
+    if _sub["n"] % (60 if ctx.quick else 400) == 1 and api_exc is not None and type(api_exc).__name__ not in ("MPilotError", "ProgramError"):
+        _cli_subprocess(ctx, path, tag, detail)
     try:
         res = CliRunner(mix_stderr=False).invoke(main, ["eems-csv", path])
     except TypeError:
